@@ -9,7 +9,7 @@ from ..world import Session, alias_partition, is_contextual, diff, pview
 ID = "C19"
 LEVEL = "exploration"
 USES_SERVERS = True       # helper interpreters are restarted for every execution made while minimising / replaying
-SHRINK_EXEC = 40
+SHRINK_EXEC = 16         # every execution made while minimising starts fresh helper interpreters (~3 s)
 QUICK_RUNS = 1920
 RULE = ("Each run: drawn policy combination (binarizers are module-level functions), a history with restart points "
         "placed before fit, after training, after arm changes, after warm start and between queries and partial_fit; "
